@@ -3,6 +3,9 @@ use crate::engine::*;
 use serde_json::Value;
 
 pub mod codec;
+pub mod envelope;
+pub mod merkle;
+pub mod sign;
 
 pub struct PropDef {
     pub id: &'static str,
@@ -46,6 +49,36 @@ pub fn all() -> Vec<PropDef> {
             timeout_s: t_std,
             run: |c| codec::run(codec::Mode::C06, c),
             replay: |c, s, v| codec::replay(codec::Mode::C06, c, s, v),
+        },
+        PropDef {
+            id: "C04",
+            level: "exploration",
+            rule: "exhaustive: every leaf count 1..=255 x every position x both profiles (completeness, own verifier + independent sha2 climb with inferred node width); ordered size pairs on one reused tree vs fresh trees; binding negatives (other leaf, other index, element flipped/removed/added) on a grid and on proptest-generated leaf sets (empty, 1-byte, equal, up to 1500 bytes) and reuse histories of 2..=8 batches. Non-trivial = n >= 3 with an odd level (zero padding in play), a binding case, or a batch following a larger batch; distinct by (profile, leaves/sizes)",
+            assumptions: &["SHA-512 collision resistance (binding negatives)", "independent climb in refcrypto.rs (sha2) follows the protocol texts: leaf tweak 0x00, node tweak 0x01, left/right by index bit"],
+            shards: s16,
+            timeout_s: t_std,
+            run: merkle::run,
+            replay: merkle::replay,
+        },
+        PropDef {
+            id: "C13",
+            level: "exploration",
+            rule: "proptest histories of 1..=32 messages per signer, each 0..=4096 bytes in 0..=16 chunks (incl. empty chunks) over generated/boundary seeds; oracle = ed25519-dalek one-shot signature == ring signature of the concatenation; verifier vs direct dalek verification on honest triples and on every single-bit corruption of signature (512) and key (256), message bits, wrong signature lengths, another key. Non-trivial = history with >= 2 messages of which one has >= 2 chunks, or any corrupted triple; distinct by content",
+            assumptions: &["ed25519-dalek one-shot sign/verify and ring are correct RFC 8032 implementations (they are cross-checked against each other on every case)"],
+            shards: s16,
+            timeout_s: t_std,
+            run: sign::run,
+            replay: sign::replay,
+        },
+        PropDef {
+            id: "C14",
+            level: "fault_enumeration",
+            rule: "proptest (plaintext 32..=64 bytes, wrapped-key length 16..=1024) blobs from an authenticating table KMS; per blob: round trip, 16-byte leak windows of seed and DEK, every bit of every byte (or a stride + all region borders when sampled), byte+1, pseudo-random byte, every truncation length, extensions 1..=16, provider faults (error on either call, wrong key, key lengths 0/16/31/33/64); oracle = Ok(seed) for the untouched blob and Err for everything else, never a panic. Non-trivial = every blob shape (all carry tamper cases in the length fields and wrapped key); distinct by (plaintext length, wrapped length, enumeration mode)",
+            assumptions: &["the harness KMS authenticates every wrapped byte (as AWS/GCP KMS do); a provider that ignores trailing bytes of the wrapped key is outside the property", "AES-256-GCM forgery is infeasible"],
+            shards: s16,
+            timeout_s: t_std,
+            run: envelope::run,
+            replay: envelope::replay,
         },
     ]
 }
